@@ -18,14 +18,20 @@ def by_name(b, u, n):
 
 
 def pickle_case(ctx, n, order, tts, kind, receiver, levels):
-    s = ctx.session(f'pickle n={n} order={order} roots={kind} recv={receiver} levels={levels}')
-    src = Mgr(ctx, None, n, order, m=0, session=s)
+    rng = ctx.rng
+    aged = rng.random() < 0.5
+    raged = rng.random() < 0.5
+    s = ctx.session(f'pickle n={n} order={order} roots={kind} recv={receiver} levels={levels} '
+                    f'aged={aged}/{raged}')
+    # the source may have a prior history (collections, re-used numbers, swaps)
+    src = Mgr(ctx, None, n, order, m=0, session=s, aged=aged)
     refs = []
     for t in tts:
         u = src.build(t)
         src.op('incref', u)
         refs.append(u * ctx.rng.choice([1, -1]))
     tts = [by_name(src.b, u, n) for u in refs]
+    order = [src.b.vars[vname(v)] for v in range(n)]   # the order at dump time
     if kind == 'list':
         roots = list(refs)
     elif kind == 'dict':
@@ -39,14 +45,15 @@ def pickle_case(ctx, n, order, tts, kind, receiver, levels):
     elif receiver == 'same':
         m = 0
     elif receiver == 'declared-same':
-        s.op(1, 'new', {v: l for v, l in zip(range(n), order)})
+        # the receiver may hold other functions and have freed numbers
+        Mgr(ctx, None, n, order, m=1, session=s, aged=raged, keep_order=True)
         m = 1
     else:
         other = list(order)
         other.reverse()
         if other == list(order):
             return
-        s.op(1, 'new', {v: l for v, l in zip(range(n), other)})
+        Mgr(ctx, None, n, other, m=1, session=s, aged=raged, keep_order=True)
         m = 1
     r = s.op(m, 'load', 1, levels)
     res = s.last_result()
